@@ -214,7 +214,7 @@ func (r *mergeRun) zeroSurvivors() bool { return len(r.want.Docs) == 0 }
 func init() {
 	register(&explore.Prop{
 		ID: "C02", Level: levelMC, Explorer: "E1 input-space enumerator",
-		Rule: "every list of <=k segments (each a MIX batch of <=2 docs over K kinds, incl. the empty batch) x every deletion bitmap (nil, empty, every subset) x configurations (input chunk modes, input form built/loaded/previously merged, output mode); merged with the real merger, loaded, observed and compared with (a) the reference model and (b) New(survivors); MERGE-LARGE (cardinalities / document counts around 1024); MERGE-ALIAS (the same segment object twice in one list, [S,S] and [S,T,S], every pair of bitmaps); MERGE(2,3,2) under 8 norm tables of unusual float32 bit patterns; MERGE-TERM (one (field, term) whose posting per document is one of {absent, f1, f1+loc, f2+loc, f300+2 locs}: every pair of segments of <=2 documents, inputs built or previously merged, with and without a deletion); MERGE-EXTREME (batches with extreme values: huge frequencies/location numbers, 70 000-byte terms and values, thousands of terms/locations/instances - alone, with a partner, twice); " +
+		Rule: "every list of <=k segments (each a MIX batch of <=2 docs over K kinds, incl. the empty batch) x every deletion bitmap (nil, empty, every subset) x configurations (input chunk modes, input form built/loaded/previously merged, output mode); merged with the real merger, loaded, observed and compared with (a) the reference model and (b) New(survivors); MERGE-LARGE (cardinalities / document counts around 1024); MERGE-ALIAS (the same segment object twice in one list, [S,S] and [S,T,S], every pair of bitmaps); MERGE(2,3,2) under 8 norm tables of unusual float32 bit patterns; MERGE-AGAIN (the same segment objects merged a second time with other bitmaps / in swapped order: the later merge is checked); MERGE-TERM (one (field, term) whose posting per document is one of {absent, f1, f1+loc, f2+loc, f300+2 locs}: every pair of segments of <=2 documents, inputs built or previously merged, with and without a deletion); MERGE-EXTREME (batches with extreme values: huge frequencies/location numbers, 70 000-byte terms and values, thousands of terms/locations/instances - alone, with a partner, twice); " +
 			"distinct = distinct (configuration, segment list, bitmaps); non-trivial = >=1 dropped doc, or two segments share a term, or field lists differ",
 		Assumptions: commonAssumptions, Budget: qBudget, Run: runC02,
 	})
@@ -291,6 +291,84 @@ func runC02(c *explore.Ctx) {
 	normMerges(c, check)
 	extremeMerges(c, check)
 	termMerges(c, check)
+	againMerges(c, check)
+}
+
+// againMerges: MERGE-AGAIN - the same segment OBJECTS are merged twice with different deletion
+// bitmaps (and once more in swapped order); the LATER merge is checked: nothing an earlier merge
+// computed for an input (survivor tables, renumbering, caches) may be carried over.
+func againMerges(c *explore.Ctx, check func(scope string, idx int64, r *mergeRun)) {
+	scope := "MERGE-AGAIN"
+	mk := func(tag string, kinds ...int) []model.Doc {
+		var b []model.Doc
+		for i, k := range kinds {
+			b = append(b, gen.MixDoc(k, tag, i))
+		}
+		return b
+	}
+	batches := [][]model.Doc{mk("s0", 2, 1, 4), mk("s1", 1, 2)}
+	dropOpts := [][][]uint32{{nil, nil}, {{0}, nil}, {{1, 2}, {0}}, {{0, 1, 2}, nil}, {nil, {0, 1}}, {{}, {1}}}
+	var idx int64
+	for form := 0; form <= 1; form++ {
+		for a := range dropOpts {
+			for b := range dropOpts {
+				for swap := 0; swap < 2; swap++ {
+					my := idx
+					idx++
+					if a == b && swap == 0 {
+						continue
+					}
+					if !c.MineIdx(scope, my) || c.Expired() {
+						continue
+					}
+					c.Eval()
+					c.Nontrivial()
+					first, err := manualMerge("again-first", batches, dropOpts[a], 1025)
+					if err != nil {
+						c.Violate(scope, my, sigOf(c.Prop, "inputs", "error: "+err.Error()), err.Error(), "")
+						continue
+					}
+					if form == 1 {
+						for i := range first.segs {
+							first.segs[i], first.lsegs[i], err = inputForm(first.segs[i], first.lsegs[i], 1, 1025)
+							if err != nil {
+								c.Violate(scope, my, sigOf(c.Prop, "inputs", "error: "+err.Error()), err.Error(), "")
+							}
+						}
+					}
+					first.run() // result discarded
+					second := &mergeRun{cfg: mergeCfg{Name: fmt.Sprintf("again form=%d first-drops=%v swap=%d", form, dropOpts[a], swap), InModes: []uint32{1025}, Out: 1025}, alias: true}
+					order := []int{0, 1}
+					if swap == 1 {
+						order = []int{1, 0}
+					}
+					for _, i := range order {
+						second.segs = append(second.segs, first.segs[i])
+						second.lsegs = append(second.lsegs, first.lsegs[i])
+						second.batches = append(second.batches, first.batches[i])
+						d := dropOpts[b][i]
+						sp := gen.SegSpec{}
+						if d == nil {
+							second.drops = append(second.drops, nil)
+							second.dropSets = append(second.dropSets, nil)
+						} else {
+							second.drops = append(second.drops, bitmapOf(d...))
+							ds := map[uint64]bool{}
+							for _, x := range d {
+								ds[uint64(x)] = true
+							}
+							second.dropSets = append(second.dropSets, ds)
+							sp.DropForm, sp.Drops = 1, d
+						}
+						second.specs = append(second.specs, sp)
+					}
+					second.want, second.wantNums = model.Merge(second.lsegs, second.dropSets)
+					second.run()
+					check(scope, my, second)
+				}
+			}
+		}
+	}
 }
 
 // termMerges: MERGE-TERM - one (field, term) whose posting in each document is one of {absent,
